@@ -76,6 +76,29 @@ def stored_bins(cases):
     return cases
 
 
+def stored_bins_after_transform(cases, shift):
+    """import with a transform that moves every feature by `shift`: the stored bin must be the bin of the STORED coordinates"""
+    import gffutils
+    lines = []
+    for i, c in enumerate(cases):
+        lines.append("chr1\t.\tgene\t%d\t%d\t.\t+\t.\tID=f%d" % (c["s"], c["e"], i))
+
+    def move(f):
+        f.start += shift
+        f.end += shift
+        return f
+    with contextlib.redirect_stderr(io.StringIO()):
+        db = gffutils.create_db("\n".join(lines) + "\n", ":memory:", from_string=True, transform=move)
+    out = []
+    for rid, s0, e0, b in db.conn.execute("SELECT id, start, end, bin FROM features"):
+        rec = observe({"s": s0, "e": e0, "fmt": "gff"})
+        rec["moved_by"] = shift
+        rec["hasdb"] = True
+        rec["dbbin"] = b if isinstance(b, int) else -2
+        out.append(rec)
+    return out
+
+
 def nontrivial(c):
     s, e = c["s"], c["e"]
     if (s - 1) >> 17 != e >> 17:
@@ -124,7 +147,7 @@ def random_cases(rng, n):
 def report(ctx, recs, rejects):
     for idx, clause in rejects:
         c = recs[idx]
-        ctx.violation({"s": c["s"], "e": c["e"], "fmt": c["fmt"]}, clause,
+        ctx.violation({"s": c["s"], "e": c["e"], "fmt": c["fmt"], "moved_by": c.get("moved_by", 0)}, clause,
                       {"observed": {k: c[k] for k in ("isint", "one", "runs", "fbin", "dbbin")}})
 
 
@@ -171,6 +194,8 @@ def run(ctx):
     if not thorough:
         db_sample = ctx.rng.sample(db_sample, min(1500, len(db_sample)))
     stored_bins(db_sample)
+    moved = stored_bins_after_transform([r for r in db_sample if r["e"] + 131073 < 2 ** 31 - 2][:1200], 131073)
+    report(ctx, moved, judge(ctx, moved, "moved"))
     rej = judge(ctx, recs, "d1")
     # cross-check of the machinery: the judge and the generator must agree about `one`
     rejset = set(i for i, _ in rej)
@@ -205,6 +230,9 @@ def replay(ctx, rec):
     c = rec["case"]
     if "s" not in c:
         return True
+    if c.get("moved_by"):
+        o = stored_bins_after_transform([{"s": c["s"] - c["moved_by"], "e": c["e"] - c["moved_by"]}], c["moved_by"])
+        return bool(judge(ctx, o, "replay"))
     o = observe(c)
     if o["fmt"] == "gff" and 1 <= o["s"] <= o["e"]:
         stored_bins([o])
